@@ -1,13 +1,978 @@
-//! C12 — not implemented yet (stub so that props/mod.rs never has to change).
-use crate::engine::PropSpec;
+//! C12 — Copy, merge, rewrite and repair preserve all content they keep.
+//!
+//! Four sub-checks, each with its own generator and oracle:
+//! * copy: model of every copied snapshot must read back from the destination; source untouched
+//! * merge: validity predicate of a reference merge on the model trees (union of names, per name a
+//!   maximal candidate under the comparator, directories merged recursively)
+//! * rewrite: model minus exactly the paths matched by an independent matcher for three
+//!   unambiguous exclude forms
+//! * repair: undamaged -> no snapshot changes; damaged -> files kept without the suffix have their
+//!   original content, suffixed files only hold surviving chunks
+
+use std::{
+    cmp::Ordering,
+    collections::{BTreeMap, BTreeSet},
+    sync::Arc,
+};
+
+use proptest::prelude::*;
+use rustic_core::{
+    FileType, RewriteOptions, RewriteTreesOptions,
+    repofile::{Node, SnapshotFile},
+};
+use serde::{Deserialize, Serialize};
+use vpcore::fmt::BType;
+
+use crate::{
+    cmds,
+    engine::{Ctx, DynSub, Outcome, PropSpec, Sub, pick_idx},
+    r#gen::{Edit, TreeParams, apply_edit, edit, tree},
+    history::{HOp, PruneCfg, World},
+    inspect::{index_view, to_id},
+    membe::Storage,
+    model::{Content, Flat, FlatKind, MKind, MNode, MTime, Piece, ReadSchedule, flatten},
+    repo::{
+        CheckVerdict, CmpOpts, Got, RepoCfg, backup_tree, check_verdict, compare, force_opts, init_repo,
+        open_full, open_ids, open_repo, read_snapshot, repo_cfg, show_path, snap_template,
+    },
+};
+
+fn params(cfg: &RepoCfg) -> TreeParams {
+    let mut p = super::c07::params(cfg);
+    p.file_cap = 150_000;
+    p
+}
+
+fn cmp_full() -> CmpOpts {
+    CmpOpts {
+        full_meta: true,
+        content: true,
+    }
+}
+
+// ---------------------------------------------------------------- copy
+
+#[derive(Debug, Clone, Serialize, Deserialize)]
+pub struct CopyCase {
+    pub src_cfg: RepoCfg,
+    pub dst_cfg: RepoCfg,
+    pub tree: MNode,
+    /// further source states, each backed up as its own snapshot
+    pub rounds: Vec<Vec<Edit>>,
+    /// prune the source (after forgetting nothing) before copying: repacked packs
+    pub prune_src: bool,
+    /// destination already holds: nothing / a backup of one of the states / an earlier copy
+    pub pre: u8,
+    pub pre_sel: u16,
+    /// which snapshots to copy (bit mask over the snapshot list, 0 = all)
+    pub select: u8,
+}
+
+fn copy_strategy(_ctx: &Ctx) -> BoxedStrategy<CopyCase> {
+    (repo_cfg(), repo_cfg())
+        .prop_flat_map(|(src_cfg, mut dst_cfg)| {
+            if dst_cfg.key_seed == src_cfg.key_seed {
+                dst_cfg.key_seed += 1;
+            }
+            let p = params(&src_cfg);
+            (
+                Just(src_cfg),
+                Just(dst_cfg),
+                tree(p),
+                prop::collection::vec(prop::collection::vec(edit(p), 0..4), 0..3),
+                prop::bool::weighted(0.3),
+                0u8..3,
+                any::<u16>(),
+                any::<u8>(),
+            )
+        })
+        .prop_map(|(src_cfg, dst_cfg, tree, rounds, prune_src, pre, pre_sel, select)| CopyCase {
+            src_cfg,
+            dst_cfg,
+            tree,
+            rounds,
+            prune_src,
+            pre,
+            pre_sel,
+            select,
+        })
+        .boxed()
+}
+
+fn run_copy(c: &CopyCase, _ctx: &Ctx) -> Outcome {
+    let mut out = Outcome::pass();
+    macro_rules! fail {
+        ($($arg:tt)*) => {{
+            out.failure = Some(format!($($arg)*));
+            return out;
+        }};
+    }
+    let mut w = match World::new(&c.src_cfg, &c.tree) {
+        Ok(w) => w,
+        Err(e) => fail!("{e}"),
+    };
+    let mut ops = vec![HOp::Backup { edits: vec![], parent: false }];
+    for r in &c.rounds {
+        ops.push(HOp::Backup { edits: r.clone(), parent: true });
+    }
+    if c.prune_src {
+        let mut p = PruneCfg::aggressive();
+        p.repack_all = true;
+        ops.push(HOp::Prune(p));
+    }
+    let mut states: Vec<MNode> = Vec::new();
+    for op in &ops {
+        if let Err(e) = w.step(op) {
+            fail!("building the source repository: {e}");
+        }
+        if matches!(op, HOp::Backup { .. }) {
+            states.push(w.tree.clone());
+        }
+    }
+    let src_files_before = w.storage.files();
+
+    let dst = Storage::new();
+    if let Err(e) = init_repo(dst.handle(), &c.dst_cfg) {
+        fail!("{e}");
+    }
+    let selected: Vec<usize> = (0..w.live.len())
+        .filter(|i| c.select == 0 || (c.select >> (i % 8)) & 1 == 1)
+        .collect();
+    let selected = if selected.is_empty() { (0..w.live.len()).collect() } else { selected };
+    // pre-populate the destination
+    let mut pre_existing_model: Vec<(SnapshotFile, Arc<Flat>)> = Vec::new();
+    match c.pre {
+        1 => {
+            // a backup of one of the states made directly in the destination: blobs already there
+            // (only identical blobs if both repositories chunk alike - either way legal)
+            let st = &states[pick_idx(c.pre_sel, states.len())];
+            let repo = match open_ids(&dst, &c.dst_cfg) {
+                Ok(r) => r,
+                Err(e) => fail!("{e}"),
+            };
+            match backup_tree(&repo, st, &ReadSchedule::default(), &force_opts(), snap_template(1_600_000_000, "other", "", "")) {
+                Ok(s) => pre_existing_model.push((s, Arc::new(flatten(st)))),
+                Err(e) => fail!("pre-populating the destination: {e}"),
+            }
+            out = out.class("dest_has_backup");
+        }
+        2 => {
+            let i = pick_idx(c.pre_sel, w.live.len());
+            if let Err(e) = cmds::copy_snapshots(&w.storage, &c.src_cfg, &dst, &c.dst_cfg, &[w.live[i].snap.clone()]) {
+                fail!("first copy: {e}");
+            }
+            out = out.class("dest_has_earlier_copy");
+        }
+        _ => out = out.class("dest_empty"),
+    }
+    let dst_snaps_before: BTreeSet<_> = dst.ids(FileType::Snapshot).into_iter().collect();
+    let to_copy: Vec<SnapshotFile> = selected.iter().map(|i| w.live[*i].snap.clone()).collect();
+    if let Err(e) = cmds::copy_snapshots(&w.storage, &c.src_cfg, &dst, &c.dst_cfg, &to_copy) {
+        fail!("{e}");
+    }
+    // source untouched
+    if w.storage.files() != src_files_before {
+        fail!("copy changed the source repository");
+    }
+    // every selected snapshot is in the destination and reads back as its model
+    let full = match open_full(&dst, &c.dst_cfg) {
+        Ok(r) => r,
+        Err(e) => fail!("destination after copy: {e}"),
+    };
+    let all = match cmds::all_snapshots(&dst, &c.dst_cfg) {
+        Ok(a) => a,
+        Err(e) => fail!("destination after copy: {e}"),
+    };
+    let new: Vec<&SnapshotFile> = all
+        .iter()
+        .filter(|s| !dst_snaps_before.contains(&rustic_core::Id::new(crate::membe::id_bytes(&s.id))))
+        .collect();
+    if new.len() != to_copy.len() {
+        fail!("{} snapshots were to be copied, the destination gained {}", to_copy.len(), new.len());
+    }
+    for i in &selected {
+        let l = &w.live[*i];
+        let Some(d) = new.iter().find(|s| s.time == l.snap.time && s.tree == l.snap.tree) else {
+            fail!("copied snapshot #{i} (tree {}) not found in the destination", l.snap.tree);
+        };
+        let got = match read_snapshot(&full, d, true) {
+            Ok(g) => g,
+            Err(e) => fail!("copied snapshot #{i} cannot be read in the destination: {e}"),
+        };
+        if let Some(diff) = compare(&l.model, &got, &cmp_full()) {
+            fail!("copied snapshot #{i} differs from the original: {diff}");
+        }
+    }
+    for (s, m) in &pre_existing_model {
+        match read_snapshot(&full, s, true) {
+            Ok(got) => {
+                if let Some(diff) = compare(m, &got, &cmp_full()) {
+                    fail!("snapshot that was in the destination before the copy changed: {diff}");
+                }
+            }
+            Err(e) => fail!("snapshot that was in the destination before the copy cannot be read: {e}"),
+        }
+    }
+    match check_verdict(&full, true) {
+        CheckVerdict::Errors(e) => fail!("destination after copy: {e}"),
+        CheckVerdict::Inconclusive(_) => out = out.class("check_inconclusive"),
+        CheckVerdict::Clean => {}
+    }
+    out.nontrivial = c.pre != 0 || to_copy.len() >= 2;
+    out.class_if(c.src_cfg.version != c.dst_cfg.version, "version_differs")
+        .class_if(c.prune_src, "source_repacked")
+}
+
+// ---------------------------------------------------------------- merge
+
+#[derive(Debug, Clone, Copy, Serialize, Deserialize, PartialEq, Eq)]
+pub enum CmpKind {
+    Mtime,
+    MtimeThenInode,
+    Size,
+}
+
+#[derive(Debug, Clone, Serialize, Deserialize)]
+pub struct MergeCase {
+    pub cfg: RepoCfg,
+    pub tree: MNode,
+    /// each variant = base tree + edit script, backed up as its own snapshot
+    pub variants: Vec<Vec<Edit>>,
+    pub cmp: CmpKind,
+}
+
+fn merge_strategy(_ctx: &Ctx) -> BoxedStrategy<MergeCase> {
+    repo_cfg()
+        .prop_flat_map(|cfg| {
+            let mut p = params(&cfg);
+            p.file_cap = 60_000;
+            // type changes and touches dominate: overlapping names of differing types
+            let e = prop_oneof![
+                3 => edit(p),
+                2 => (any::<u16>(), crate::r#gen::leaf(p)).prop_map(|(s, n)| Edit::Retype(s, n)),
+                2 => (any::<u16>(), crate::r#gen::mtime()).prop_map(|(s, t)| Edit::Touch(s, t)),
+            ];
+            (
+                Just(cfg),
+                tree(p),
+                prop::collection::vec(prop::collection::vec(e, 0..5), 2..=4),
+                prop_oneof![Just(CmpKind::Mtime), Just(CmpKind::MtimeThenInode), Just(CmpKind::Size)],
+            )
+        })
+        .prop_map(|(cfg, tree, variants, cmp)| MergeCase { cfg, tree, variants, cmp })
+        .boxed()
+}
+
+fn lib_cmp(kind: CmpKind) -> impl Fn(&Node, &Node) -> Ordering + Sync {
+    move |a: &Node, b: &Node| match kind {
+        CmpKind::Mtime => a.meta.mtime.cmp(&b.meta.mtime),
+        CmpKind::MtimeThenInode => a.meta.mtime.cmp(&b.meta.mtime).then(a.meta.inode.cmp(&b.meta.inode)),
+        CmpKind::Size => a.meta.size.cmp(&b.meta.size),
+    }
+}
+
+fn model_cmp(kind: CmpKind, a: &MNode, b: &MNode) -> Ordering {
+    let size = |n: &MNode| match &n.kind {
+        MKind::File { content } => content.len() as u64,
+        _ => 0,
+    };
+    match kind {
+        CmpKind::Mtime => a.mtime.cmp(&b.mtime),
+        CmpKind::MtimeThenInode => a.mtime.cmp(&b.mtime).then(a.inode.cmp(&b.inode)),
+        CmpKind::Size => size(a).cmp(&size(b)),
+    }
+}
+
+/// does the listed node `g` equal the model node `m` (ignoring children)?
+fn node_matches(g: &crate::repo::GotEntry, m: &MNode) -> bool {
+    let mut single = Flat::new();
+    let mut leaf = m.clone();
+    if let MKind::Dir { children } = &mut leaf.kind {
+        children.clear();
+    }
+    let f = flatten(&leaf);
+    let (k, e) = f.iter().next().unwrap();
+    _ = single.insert(k.clone(), e.clone());
+    let mut got = Got::new();
+    _ = got.insert(k.clone(), g.clone());
+    compare(&single, &got, &cmp_full()).is_none()
+}
+
+/// validity predicate of the merge at directory `path` whose content is the merge of `dirs`
+fn check_merged_dir(path: &[u8], dirs: &[&MNode], got: &Got, kind: CmpKind, conflicts: &mut u32) -> Result<(), String> {
+    let mut by_name: BTreeMap<&[u8], Vec<&MNode>> = BTreeMap::new();
+    for d in dirs {
+        for c in d.children() {
+            by_name.entry(&c.name).or_default().push(c);
+        }
+    }
+    // children the listing has directly under `path`
+    let prefix: Vec<u8> = if path.is_empty() { Vec::new() } else { [path, b"/"].concat() };
+    let listed: BTreeSet<&[u8]> = got
+        .keys()
+        .filter(|k| k.starts_with(&prefix) && k.len() > prefix.len() && !k[prefix.len()..].contains(&b'/'))
+        .map(|k| &k[prefix.len()..])
+        .collect();
+    let want: BTreeSet<&[u8]> = by_name.keys().copied().collect();
+    if listed != want {
+        let missing: Vec<_> = want.difference(&listed).map(|n| show_path(n)).collect();
+        let extra: Vec<_> = listed.difference(&want).map(|n| show_path(n)).collect();
+        return Err(format!(
+            "merged directory {:?}: entries are not the union of the inputs (missing {missing:?}, unexpected {extra:?})",
+            show_path(path)
+        ));
+    }
+    for (name, cands) in by_name {
+        let full: Vec<u8> = [&prefix[..], name].concat();
+        let g = &got[&full];
+        let kinds: BTreeSet<u8> = cands
+            .iter()
+            .map(|c| match c.kind {
+                MKind::File { .. } => 0,
+                MKind::Dir { .. } => 1,
+                MKind::Symlink { .. } => 2,
+            })
+            .collect();
+        if kinds.len() > 1 {
+            *conflicts += 1;
+        }
+        let maximal: Vec<&&MNode> = cands
+            .iter()
+            .filter(|c| !cands.iter().any(|o| model_cmp(kind, o, c) == Ordering::Greater))
+            .collect();
+        let Some(winner) = maximal.iter().find(|m| node_matches(g, m)) else {
+            return Err(format!(
+                "merged entry {:?} equals none of the {} candidate(s) that are maximal under the given ordering ({} candidates in total)",
+                show_path(&full),
+                maximal.len(),
+                cands.len()
+            ));
+        };
+        if winner.is_dir() {
+            let sub: Vec<&MNode> = cands.iter().filter(|c| c.is_dir()).copied().collect();
+            check_merged_dir(&full, &sub, got, kind, conflicts)?;
+        }
+    }
+    Ok(())
+}
+
+fn run_merge(c: &MergeCase, _ctx: &Ctx) -> Outcome {
+    let mut out = Outcome::pass();
+    macro_rules! fail {
+        ($($arg:tt)*) => {{
+            out.failure = Some(format!($($arg)*));
+            return out;
+        }};
+    }
+    let storage = Storage::new();
+    if let Err(e) = init_repo(storage.handle(), &c.cfg) {
+        fail!("{e}");
+    }
+    let mut states = Vec::new();
+    let mut snaps = Vec::new();
+    for (i, script) in c.variants.iter().enumerate() {
+        let mut t = c.tree.clone();
+        for e in script {
+            _ = apply_edit(&mut t, e, 100 + i as i64);
+        }
+        let repo = match open_ids(&storage, &c.cfg) {
+            Ok(r) => r,
+            Err(e) => fail!("{e}"),
+        };
+        match backup_tree(&repo, &t, &ReadSchedule::default(), &force_opts(), snap_template(1_700_000_000 + i as i64, "host", "", "")) {
+            Ok(s) => snaps.push(s),
+            Err(e) => fail!("backup of variant {i}: {e}"),
+        }
+        states.push(t);
+    }
+    let before = storage.ids(FileType::Snapshot).len();
+    let merged = match cmds::merge_snapshots(&storage, &c.cfg, &snaps, &lib_cmp(c.cmp), 1_700_001_000) {
+        Ok(s) => s,
+        Err(e) => fail!("{e}"),
+    };
+    if storage.ids(FileType::Snapshot).len() != before + 1 {
+        fail!("merge did not add exactly one snapshot");
+    }
+    let full = match open_full(&storage, &c.cfg) {
+        Ok(r) => r,
+        Err(e) => fail!("{e}"),
+    };
+    let got = match read_snapshot(&full, &merged, true) {
+        Ok(g) => g,
+        Err(e) => fail!("merged snapshot cannot be read: {e}"),
+    };
+    // the snapshot root holds the single entry "s": merge of all variants' root directories
+    let roots: Vec<&MNode> = states.iter().collect();
+    let mut conflicts = 0;
+    // wrap: a virtual top directory whose children are the variants' roots
+    let tops: Vec<MNode> = roots
+        .iter()
+        .map(|r| MNode {
+            name: Vec::new(),
+            kind: MKind::Dir { children: vec![(*r).clone()] },
+            perm: 0o755,
+            mtime: MTime(0, 0),
+            ctime: MTime(0, 0),
+            uid: 0,
+            gid: 0,
+            inode: 0,
+            device: 0,
+            links: 1,
+        })
+        .collect();
+    let top_refs: Vec<&MNode> = tops.iter().collect();
+    if let Err(e) = check_merged_dir(b"", &top_refs, &got, c.cmp, &mut conflicts) {
+        fail!("{e}");
+    }
+    // the inputs are still intact
+    for (i, (s, st)) in snaps.iter().zip(states.iter()).enumerate() {
+        match read_snapshot(&full, s, true) {
+            Ok(g) => {
+                if let Some(d) = compare(&flatten(st), &g, &cmp_full()) {
+                    fail!("input snapshot {i} changed by merge: {d}");
+                }
+            }
+            Err(e) => fail!("input snapshot {i} unreadable after merge: {e}"),
+        }
+    }
+    if let CheckVerdict::Errors(e) = check_verdict(&full, true) {
+        fail!("after merge: {e}");
+    }
+    out.nontrivial = conflicts > 0;
+    out.class_if(conflicts > 0, "type_conflict").class(format!("cmp_{:?}", c.cmp))
+}
+
+// ---------------------------------------------------------------- rewrite
+
+#[derive(Debug, Clone, Serialize, Deserialize, PartialEq, Eq)]
+pub enum Glob {
+    /// `!/s/a/b`
+    Anchored(Vec<String>),
+    /// `!name`
+    Basename(String),
+    /// `!*.ext`
+    Ext(String),
+}
+
+impl Glob {
+    fn pattern(&self) -> String {
+        match self {
+            Glob::Anchored(p) => format!("!/{}", p.join("/")),
+            Glob::Basename(n) => format!("!{n}"),
+            Glob::Ext(e) => format!("!*.{e}"),
+        }
+    }
+    fn matches(&self, comps: &[&str]) -> bool {
+        match self {
+            Glob::Anchored(p) => comps.len() == p.len() && comps.iter().zip(p.iter()).all(|(a, b)| a == b),
+            Glob::Basename(n) => comps.last() == Some(&n.as_str()),
+            Glob::Ext(e) => comps.last().is_some_and(|l| l.ends_with(&format!(".{e}"))),
+        }
+    }
+}
+
+#[derive(Debug, Clone, Serialize, Deserialize)]
+pub struct RewriteCase {
+    pub cfg: RepoCfg,
+    pub tree: MNode,
+    pub rounds: Vec<Vec<Edit>>,
+    pub globs: Vec<Glob>,
+    pub forget: bool,
+}
+
+/// trees with plain names: [a-d]{1,2} optionally followed by .txt/.log/.tmp
+fn simple_tree(p: TreeParams) -> BoxedStrategy<MNode> {
+    tree(p)
+        .prop_map(|mut t| {
+            fn rename(n: &mut MNode, top: bool) {
+                if !top {
+                    let h = n.name.iter().fold(0u32, |a, b| a.wrapping_mul(31).wrapping_add(u32::from(*b)));
+                    let base = ["a", "b", "c", "d", "ab", "cd"][(h % 6) as usize];
+                    let ext = ["", "", ".txt", ".log", ".tmp"][((h / 7) % 5) as usize];
+                    n.name = format!("{base}{ext}").into_bytes();
+                }
+                if let Some(ch) = n.children_mut() {
+                    for c in ch {
+                        rename(c, false);
+                    }
+                }
+            }
+            rename(&mut t, true);
+            t.normalise();
+            // hardlink bookkeeping is irrelevant here; make link counts consistent again
+            fn unlink(n: &mut MNode) {
+                n.links = 1;
+                // normal form of the default node modification of rewrite (device id only kept
+                // for hardlinks, like a default backup from a local source does)
+                n.device = 0;
+                if let Some(ch) = n.children_mut() {
+                    for c in ch {
+                        unlink(c);
+                    }
+                }
+            }
+            unlink(&mut t);
+            t
+        })
+        .boxed()
+}
+
+fn rewrite_strategy(_ctx: &Ctx) -> BoxedStrategy<RewriteCase> {
+    repo_cfg()
+        .prop_flat_map(|cfg| {
+            let mut p = params(&cfg);
+            p.file_cap = 60_000;
+            let name = || prop::sample::select(vec!["a", "b", "c", "d", "ab", "cd", "a.txt", "b.log", "c.tmp", "zz"]).prop_map(str::to_string);
+            let glob = prop_oneof![
+                3 => prop::collection::vec(name(), 0..3).prop_map(|mut v| {
+                    v.insert(0, "s".to_string());
+                    Glob::Anchored(v)
+                }),
+                2 => name().prop_map(Glob::Basename),
+                2 => prop::sample::select(vec!["txt", "log", "tmp", "none"]).prop_map(|e| Glob::Ext(e.to_string())),
+            ];
+            (
+                Just(cfg),
+                simple_tree(p),
+                prop::collection::vec(prop::collection::vec(edit(p), 0..3), 0..2),
+                prop::collection::vec(glob, 0..4),
+                any::<bool>(),
+            )
+        })
+        .prop_map(|(cfg, tree, rounds, globs, forget)| RewriteCase { cfg, tree, rounds, globs, forget })
+        .boxed()
+}
+
+/// the model after removing every path matched by a glob (with descendants)
+fn filter_model(model: &Flat, globs: &[Glob]) -> (Flat, usize, bool) {
+    let mut removed_roots: Vec<Vec<u8>> = Vec::new();
+    let mut nonleaf = false;
+    for (k, e) in model {
+        let s = String::from_utf8_lossy(k).into_owned();
+        let comps: Vec<&str> = s.split('/').collect();
+        if globs.iter().any(|g| g.matches(&comps)) {
+            removed_roots.push(k.clone());
+            if matches!(e.kind, FlatKind::Dir) && model.keys().any(|o| o.starts_with(&[&k[..], b"/"].concat())) {
+                nonleaf = true;
+            }
+        }
+    }
+    let keep: Flat = model
+        .iter()
+        .filter(|(k, _)| {
+            !removed_roots
+                .iter()
+                .any(|r| *k == r || k.starts_with(&[&r[..], b"/"].concat()))
+        })
+        .map(|(k, v)| {
+            // the default node modification of rewrite keeps the device id only for hardlinked
+            // files (the same default a backup from a local source applies)
+            let mut v = v.clone();
+            if v.links <= 1 || matches!(v.kind, FlatKind::Dir) {
+                v.device = 0;
+            }
+            (k.clone(), v)
+        })
+        .collect();
+    let n = model.len() - keep.len();
+    (keep, n, nonleaf)
+}
+
+fn run_rewrite(c: &RewriteCase, _ctx: &Ctx) -> Outcome {
+    let mut out = Outcome::pass();
+    macro_rules! fail {
+        ($($arg:tt)*) => {{
+            out.failure = Some(format!($($arg)*));
+            return out;
+        }};
+    }
+    let mut w = match World::new(&c.cfg, &c.tree) {
+        Ok(w) => w,
+        Err(e) => fail!("{e}"),
+    };
+    let mut ops = vec![HOp::Backup { edits: vec![], parent: false }];
+    for r in &c.rounds {
+        ops.push(HOp::Backup { edits: r.clone(), parent: false });
+    }
+    for op in &ops {
+        if let Err(e) = w.step(op) {
+            fail!("building the repository: {e}");
+        }
+    }
+    // edits may introduce arbitrary names again; the matcher is only defined for plain names
+    let plain = w.live.iter().all(|l| {
+        l.model
+            .keys()
+            .all(|k| k.iter().all(|b| b.is_ascii_alphanumeric() || *b == b'.' || *b == b'/'))
+    });
+    if !plain {
+        return out.skip("names_outside_matcher_domain");
+    }
+    let originals: Vec<SnapshotFile> = w.live.iter().map(|l| l.snap.clone()).collect();
+    let mut tree_opts = RewriteTreesOptions::default();
+    tree_opts.excludes.globs = c.globs.iter().map(Glob::pattern).collect();
+    let opts = RewriteOptions::default().forget(c.forget);
+    let written = match cmds::rewrite(&w.storage, &c.cfg, originals.clone(), &opts, &tree_opts) {
+        Ok(s) => s,
+        Err(e) => fail!("{e}"),
+    };
+    let full = match open_full(&w.storage, &c.cfg) {
+        Ok(r) => r,
+        Err(e) => fail!("after rewrite: {e}"),
+    };
+    let all = match cmds::all_snapshots(&w.storage, &c.cfg) {
+        Ok(a) => a,
+        Err(e) => fail!("after rewrite: {e}"),
+    };
+    let orig_ids: BTreeSet<_> = originals.iter().map(|s| s.id).collect();
+    let mut removed_total = 0;
+    let mut nonleaf_any = false;
+    for l in &w.live {
+        let (want, removed, nonleaf) = filter_model(&l.model, &c.globs);
+        removed_total += removed;
+        nonleaf_any |= nonleaf;
+        let still_there = all.iter().find(|s| s.id == l.snap.id);
+        let rewritten = all.iter().find(|s| !orig_ids.contains(&s.id) && s.time == l.snap.time);
+        // the original is untouched unless forget was requested (and something was written for it)
+        if let Some(o) = still_there {
+            match read_snapshot(&full, o, true) {
+                Ok(g) => {
+                    if let Some(d) = compare(&l.model, &g, &cmp_full()) {
+                        fail!("rewrite changed an original snapshot: {d}");
+                    }
+                }
+                Err(e) => fail!("original snapshot unreadable after rewrite: {e}"),
+            }
+        } else if !c.forget {
+            fail!("an original snapshot disappeared although forget was not requested");
+        } else if rewritten.is_none() {
+            fail!("an original snapshot was removed without a rewritten replacement");
+        }
+        if removed > 0 && rewritten.is_none() {
+            fail!("{removed} path(s) of a snapshot match the excludes but no rewritten snapshot was saved");
+        }
+        if let Some(r) = rewritten {
+            match read_snapshot(&full, r, true) {
+                Ok(g) => {
+                    if let Some(d) = compare(&want, &g, &cmp_full()) {
+                        fail!(
+                            "rewritten snapshot is not the original minus exactly the excluded paths (excludes {:?}): {d}",
+                            tree_opts.excludes.globs
+                        );
+                    }
+                }
+                Err(e) => fail!("rewritten snapshot cannot be read: {e}"),
+            }
+        }
+    }
+    let _ = written;
+    if let CheckVerdict::Errors(e) = check_verdict(&full, true) {
+        fail!("after rewrite: {e}");
+    }
+    out.nontrivial = removed_total > 0 && nonleaf_any;
+    out.class_if(removed_total > 0, "something_excluded")
+        .class_if(nonleaf_any, "non_leaf_removed")
+        .class_if(c.forget, "forget")
+}
+
+// ---------------------------------------------------------------- repair
+
+#[derive(Debug, Clone, Serialize, Deserialize)]
+pub struct RepairCase {
+    pub cfg: RepoCfg,
+    pub tree: MNode,
+    pub rounds: Vec<Vec<Edit>>,
+    /// None = undamaged; Some((kind, selector)): 0 = remove one pack, 1 = drop one blob from the index
+    pub damage: Option<(u8, u16)>,
+    pub delete: bool,
+}
+
+fn repair_strategy(_ctx: &Ctx) -> BoxedStrategy<RepairCase> {
+    repo_cfg()
+        .prop_flat_map(|cfg| {
+            let mut p = params(&cfg);
+            p.file_cap = 100_000;
+            (
+                Just(cfg),
+                tree(p),
+                prop::collection::vec(prop::collection::vec(edit(p), 0..3), 0..3),
+                prop::option::weighted(0.75, (0u8..2, any::<u16>())),
+                any::<bool>(),
+            )
+        })
+        .prop_map(|(cfg, tree, rounds, damage, delete)| RepairCase { cfg, tree, rounds, damage, delete })
+        .boxed()
+}
+
+fn run_repair(c: &RepairCase, _ctx: &Ctx) -> Outcome {
+    let mut out = Outcome::pass();
+    macro_rules! fail {
+        ($($arg:tt)*) => {{
+            out.failure = Some(format!($($arg)*));
+            return out;
+        }};
+    }
+    let mut w = match World::new(&c.cfg, &c.tree) {
+        Ok(w) => w,
+        Err(e) => fail!("{e}"),
+    };
+    let mut ops = vec![HOp::Backup { edits: vec![], parent: false }];
+    for r in &c.rounds {
+        ops.push(HOp::Backup { edits: r.clone(), parent: true });
+    }
+    for op in &ops {
+        if let Err(e) = w.step(op) {
+            fail!("building the repository: {e}");
+        }
+    }
+    let key = c.cfg.key64();
+    let snaps: Vec<SnapshotFile> = w.live.iter().map(|l| l.snap.clone()).collect();
+    let mut lost_blobs: BTreeSet<(BType, [u8; 32])> = BTreeSet::new();
+    if let Some((kind, sel)) = c.damage {
+        let view = match index_view(&w.storage, &key) {
+            Ok(v) => v,
+            Err(e) => fail!("{e}"),
+        };
+        let mut data_packs: Vec<_> = view
+            .packs
+            .iter()
+            .filter(|(_, b)| !b.is_empty() && b.iter().all(|x| x.0 == BType::Data))
+            .collect();
+        if data_packs.is_empty() {
+            return out.skip("no_data_pack");
+        }
+        // pack ids are random (nonces): order the candidates by their content instead
+        data_packs.sort_by_key(|(_, b)| b.iter().map(|x| x.1).min());
+        let (pid, blobs) = data_packs[pick_idx(sel, data_packs.len())];
+        if kind == 0 {
+            // a pack is lost; the user repairs the index first
+            let deleted = w.storage.del(FileType::Pack, &to_id(pid));
+            if std::env::var_os("VP_DEBUG").is_some() {
+                eprintln!("victim pack {} deleted={deleted}; packs now {:?}", hex::encode(&pid[..4]), w.packs().iter().map(|p| hex::encode(&p[..4])).collect::<Vec<_>>());
+            }
+            if let Err(e) = cmds::repair_index(&w.storage, &c.cfg, false, false) {
+                fail!("repair index after a pack loss: {e}");
+            }
+            // blobs of the pack that have no other copy are lost
+            let view2 = match index_view(&w.storage, &key) {
+                Ok(v) => v,
+                Err(e) => fail!("{e}"),
+            };
+            lost_blobs.extend(blobs.iter().copied().filter(|b| !view2.blobs.contains_key(b)));
+            out = out.class("pack_lost");
+        } else {
+            // one blob entry is dropped from the index (file re-encoded with the independent encoder)
+            let victim = blobs[pick_idx(sel.rotate_left(7), blobs.len())];
+            let mut done = false;
+            for (fid, f) in &view.files {
+                let mut f2 = f.clone();
+                for p in &mut f2.packs {
+                    let before = p.blobs.len();
+                    p.blobs.retain(|b| !(b.tpe == "data" && vpcore::fmt::parse_id(&b.id) == Some(victim.1)));
+                    if p.blobs.len() != before {
+                        done = true;
+                        // the recorded pack size keeps the pack consistent for prune/check
+                        if p.size.is_none() {
+                            p.size = w.storage.get(FileType::Pack, &to_id(pid)).map(|d| d.len() as u32);
+                        }
+                    }
+                }
+                if f2 != *f {
+                    let json = serde_json::to_vec(&f2).unwrap();
+                    let mut seed = 77 + u64::from(sel);
+                    let enc = vpcore::fmt::encode_file(&key, &vpcore::fmt::next_nonce(&mut seed), &json, None);
+                    _ = w.storage.del(FileType::Index, &to_id(fid));
+                    w.storage.put(FileType::Index, to_id(&vpcore::fmt::sha256(&enc)), enc);
+                }
+            }
+            if !done {
+                return out.skip("blob_not_found_in_index");
+            }
+            // the blob may have a duplicate elsewhere; it is lost only if no index entry remains
+            let view2 = index_view(&w.storage, &key).unwrap_or_default();
+            if !view2.blobs.contains_key(&victim) {
+                _ = lost_blobs.insert(victim);
+            }
+            out = out.class("index_entry_dropped");
+        }
+    }
+    let snaps_before: BTreeSet<_> = w.storage.ids(FileType::Snapshot).into_iter().collect();
+    if std::env::var_os("VP_DEBUG").is_some() {
+        let v = index_view(&w.storage, &key).unwrap_or_default();
+        eprintln!("lost blobs: {:?}", lost_blobs.iter().map(|b| hex::encode(&b.1[..4])).collect::<Vec<_>>());
+        eprintln!("index packs after damage: {:?}", v.packs.iter().map(|(p, b)| (hex::encode(&p[..4]), b.iter().map(|x| hex::encode(&x.1[..4])).collect::<Vec<_>>())).collect::<Vec<_>>());
+        eprintln!("storage packs: {:?}", w.packs().iter().map(|p| hex::encode(&p[..4])).collect::<Vec<_>>());
+    }
+    if let Err(e) = cmds::repair_snapshots(&w.storage, &c.cfg, snaps.clone(), c.delete, false) {
+        fail!("{e}");
+    }
+    let snaps_after: BTreeSet<_> = w.storage.ids(FileType::Snapshot).into_iter().collect();
+    if lost_blobs.is_empty() {
+        if snaps_before != snaps_after {
+            fail!("repairing an undamaged repository added or removed snapshot files");
+        }
+        out.nontrivial = c.damage.is_some();
+        return out.class("undamaged");
+    }
+    // which files of which snapshot were hit
+    let full = match open_full(&w.storage, &c.cfg) {
+        Ok(r) => r,
+        Err(e) => fail!("after repair: {e}"),
+    };
+    let all = match cmds::all_snapshots(&w.storage, &c.cfg) {
+        Ok(a) => a,
+        Err(e) => fail!("after repair: {e}"),
+    };
+    let mut hit_live_file = false;
+    for l in &w.live {
+        // chunks of every file of this snapshot (predicted with the reference chunker)
+        let mut damaged_paths: BTreeSet<Vec<u8>> = BTreeSet::new();
+        for (path, e) in l.model.iter() {
+            if let FlatKind::File(bytes) = &e.kind {
+                let chunks = super::c07::predicted_chunks(&c.cfg, bytes);
+                if chunks.iter().any(|id| lost_blobs.contains(&(BType::Data, *id))) {
+                    _ = damaged_paths.insert(path.clone());
+                }
+            }
+        }
+        hit_live_file |= !damaged_paths.is_empty();
+        let repaired = all.iter().find(|s| s.original == Some(l.snap.id) && s.id != l.snap.id);
+        let original_present = snaps_after.contains(&rustic_core::Id::new(crate::membe::id_bytes(&l.snap.id)));
+        if damaged_paths.is_empty() {
+            // snapshot not affected: must be unchanged and present
+            if !original_present {
+                fail!("a snapshot that lost nothing was removed by repair");
+            }
+            if repaired.is_some() {
+                fail!("a snapshot that lost nothing was rewritten by repair");
+            }
+            match read_snapshot(&full, &l.snap, true) {
+                Ok(g) => {
+                    if let Some(d) = compare(&l.model, &g, &cmp_full()) {
+                        fail!("unaffected snapshot changed: {d}");
+                    }
+                }
+                Err(e) => fail!("unaffected snapshot unreadable after repair: {e}"),
+            }
+            continue;
+        }
+        let Some(r) = repaired else {
+            fail!("a snapshot with {} damaged file(s) got no repaired replacement", damaged_paths.len());
+        };
+        if c.delete && original_present {
+            fail!("delete was requested but the damaged original snapshot is still there");
+        }
+        if !c.delete && !original_present {
+            fail!("the damaged original snapshot was removed although delete was off");
+        }
+        if std::env::var_os("VP_DEBUG").is_some() {
+            for (tag, sn) in [("original", &l.snap), ("repaired", r)] {
+                if let Ok(g) = read_snapshot(&full, sn, false) {
+                    for (p, e) in &g {
+                        eprintln!("{tag} {:?} size {} content {:?} subtree {:?}", show_path(p), e.node.meta.size, e.node.content.as_ref().map(|c| c.iter().map(|d| d.to_hex()[..8].to_string()).collect::<Vec<_>>()), e.node.subtree.map(|t| t.to_hex()[..8].to_string()));
+                    }
+                }
+            }
+        }
+        let got = match read_snapshot(&full, r, true) {
+            Ok(g) => g,
+            Err(e) => fail!("repaired snapshot cannot be read: {e}"),
+        };
+        // expected: every undamaged path identical; damaged files renamed with the suffix and
+        // holding only surviving chunks
+        let mut want = (*l.model).clone();
+        for p in &damaged_paths {
+            let e = want.remove(p).unwrap();
+            let FlatKind::File(bytes) = &e.kind else { unreachable!() };
+            let mut surviving = Vec::new();
+            let lens = chunk_lens(&c.cfg, bytes);
+            let mut pos = 0;
+            for l in lens {
+                let chunk = &bytes[pos..pos + l];
+                if !lost_blobs.contains(&(BType::Data, vpcore::fmt::sha256(chunk))) {
+                    surviving.extend_from_slice(chunk);
+                }
+                pos += l;
+            }
+            let mut np = p.clone();
+            np.extend_from_slice(b".repaired");
+            let mut e2 = e.clone();
+            e2.kind = FlatKind::File(Arc::new(surviving));
+            _ = want.insert(np, e2);
+        }
+        if let Some(d) = compare(&want, &got, &cmp_full()) {
+            fail!("repaired snapshot: {d}");
+        }
+    }
+    // a dropped index entry leaves a gap in the pack's index entry, which check rightly reports
+    if c.delete && matches!(c.damage, Some((0, _))) {
+        if let CheckVerdict::Errors(e) = check_verdict(&full, true) {
+            fail!("after repair with delete: {e}");
+        }
+    }
+    out.nontrivial = hit_live_file;
+    out.class_if(hit_live_file, "damage_hits_live_file")
+}
+
+fn chunk_lens(cfg: &RepoCfg, data: &[u8]) -> Vec<usize> {
+    match cfg.chunker {
+        crate::repo::ChunkerCfg::Fixed { size } => vpcore::chunkref::fixed_chunks(data.len(), size as usize),
+        _ => {
+            let (avg, min, max) = cfg.rabin_params().unwrap();
+            vpcore::chunkref::ref_chunks(data, &super::c06::table(cfg.poly), avg, min, max).lens
+        }
+    }
+}
+
+#[allow(dead_code)]
+fn _unused(_: Content, _: Piece, _: fn(&Arc<Storage>)) {
+    let _ = open_repo;
+}
 
 pub fn spec() -> PropSpec {
     PropSpec {
         id: "C12",
         level: "exploration",
-        rule: "",
-        assumptions: vec![],
-        subs: vec![],
+        rule: "four proptest generators. copy: source repository of 1–3 snapshots sharing blobs (optionally repacked by a prune) x destination configuration with another key/version/compression/pack size that is empty, already holds a backup of one of the states, or an earlier copy; any subset of snapshots. merge: 2–4 snapshots that are edit-script variants of one tree (type changes, touches, adds/removes) x comparator (mtime, mtime-then-inode, size). rewrite: plain-name trees x 0–3 excludes of the forms !/anchored/path, !basename, !*.ext x forget. repair: 1–3 snapshots x {undamaged, one data pack removed + repair index, one index entry dropped} x delete. Non-trivial: copy into a non-empty destination or ≥2 snapshots; merge with a name carried by different entry types; rewrite removing a non-empty directory; damage that hits a file of a live snapshot. Distinct by hash of the case.",
+        assumptions: vec![
+            "merge ties: any candidate that is maximal under the comparator is accepted (the library's choice among equal elements depends on heap order)",
+            "rewrite is judged only for names of [A-Za-z0-9.] and the three exclude forms whose meaning is unambiguous",
+            "a lost pack is followed by repair-index before repair-snapshots, as a user would do",
+        ],
+        subs: vec![
+            Box::new(Sub {
+                name: "copy",
+                cases_quick: 150,
+                cases_thorough: 5000,
+                max_shrink_iters: 200,
+                strategy: copy_strategy,
+                run: run_copy,
+            }) as Box<dyn DynSub>,
+            Box::new(Sub {
+                name: "merge",
+                cases_quick: 150,
+                cases_thorough: 5000,
+                max_shrink_iters: 200,
+                strategy: merge_strategy,
+                run: run_merge,
+            }),
+            Box::new(Sub {
+                name: "rewrite",
+                cases_quick: 150,
+                cases_thorough: 5000,
+                max_shrink_iters: 200,
+                strategy: rewrite_strategy,
+                run: run_rewrite,
+            }),
+            Box::new(Sub {
+                name: "repair",
+                cases_quick: 150,
+                cases_thorough: 5000,
+                max_shrink_iters: 200,
+                strategy: repair_strategy,
+                run: run_repair,
+            }),
+        ],
         extra: None,
     }
 }
